@@ -17,5 +17,17 @@ TEXT = {
         "the first marshaling error in index order is returned, otherwise a hash. Correspondence runs every leaf count 0..600/4100 and 2^e±1 with three hash functions and an erroring leaf at every position of small trees.",
    note="Trusted: Lean kernel; extractor+harness; crypto.Hash instances are functions of their input; Lean hash oracles in the driver. The bottom-up and audit-path equivalences of the statement are not yet theorems (partial); "
         "they are exercised only through RFC-shaped MTH."),
+ "C04": dict(ref="DESIGN.md §5 C04/C05",
+   technique="Lean 4 proof (Decode = declarative BIP-173 validity predicate, by case analysis of every guard + list induction; base32 regrouping via arithmetic forms decided per byte and omega) with regenerated-fact tie and differential correspondence",
+   text="Lean theorems over the executable model of bech32.Decode and its base32/charset/checksum helpers: decode s = ok(hrp,data) IFF Valid s hrp data (<=90 chars, one case, printable-ASCII prefix, last '1' separator, "
+        "charset data, polymod = 1, payload = BIP-173 convertbits(8->5, pad) of data stated positionally); every accepted string re-encodes to its lower-case form (unique spelling); every SyntaxError offset is < len(s); "
+        "base32.Decode accepts exactly base32.Encode outputs. Tie: charset, generator constants, limits, translated isValidHRPChar/EncodedLen/DecodedLen, source snapshots. Correspondence: checksum-correct strings for every "
+        "symbol count 0..84 in all padding patterns, mutations, non-ASCII look-alikes.",
+   note="Trusted: Lean kernel; extractor+harness; Go strings.ToLower/ToUpper/LastIndex modelled as ASCII operations (after the F2 fix Decode only folds ASCII). No-panic is observed by the correspondence run; the model is a total function."),
+ "C05": dict(ref="DESIGN.md §5 C04/C05",
+   technique="Lean 4 proof (Encode = BIP-173 string; Decode∘Encode = id via the Valid predicate; checksum existence/uniqueness by XOR-linearity of one polymod step) with regenerated-fact tie and differential correspondence",
+   text="Lean theorems: encode hrp d = ok r IFF (non-empty, single-case, bytes 33..126, len(hrp)+ceil(8n/5)+7 <= 90) and r = the BIP-173 string (to5 d ++ the unique verifying 6-symbol checksum over lower(hrp), in hrp's case); "
+        "decode(encode hrp d) = ok(lower hrp, d); otherwise an error (empty / over-long / mixed-case / non-printable each stated). Correspondence: all data lengths 0..52 x prefix lengths straddling the 90 limit, invalid prefixes, random cases.",
+   note="Trusted: Lean kernel; extractor+harness; Go strings case functions modelled on printable ASCII."),
 }
 PENDING = {}
